@@ -29,6 +29,14 @@ fn run_prop(id: &str, tier: Tier) -> Option<Report> {
         "C14" => props::c14::run(tier),
         "C15" => props::c15::run(tier),
         "C12" => props::c12::run(tier),
+        "C07" => props::c07::run(tier),
+        _ => return None,
+    })
+}
+
+fn staged_of(id: &str, tier: Tier) -> Option<explore::Staged> {
+    Some(match id {
+        "C07" => props::c07::staged(tier),
         _ => return None,
     })
 }
@@ -50,6 +58,7 @@ fn replay_case(case: &Value) -> Option<(bool, String)> {
         "c14" | "c14labels" => props::c14::replay(case),
         "c15res" | "c15rgb" | "c15content" | "c15contentrgb" => props::c15::replay(case),
         "c12" | "c12float" => props::c12::replay(case),
+        "c07geom" | "c07enc" | "c07curve" | "c07special" => props::c07::replay(case),
         _ => return None,
     })
 }
@@ -112,6 +121,15 @@ fn main() {
                 Some(p) => std::fs::write(p, s).expect("write report"),
                 None => println!("{s}"),
             }
+        }
+        "child" => {
+            // mc child <ID> <tier> <stage> <lo> <hi> <out>
+            if args.len() < 8 {
+                usage();
+            }
+            let tier = if args[3] == "quick" { Tier::Quick } else { Tier::Thorough };
+            let st = staged_of(&args[2], tier).unwrap_or_else(|| usage());
+            explore::child_main(&st, tier, args[4].parse().unwrap(), args[5].parse().unwrap(), args[6].parse().unwrap(), &args[7]);
         }
         "replay" => {
             if args.len() < 3 {
